@@ -46,3 +46,8 @@ Definition no_byte_space_lead (T : bytes) : bool :=
    and not at all behind the last child of the element. *)
 Definition lines_code (Ls : list bytes) : bytes := join_sp (map text_code Ls).
 Definition doc_code_lines (Ls : list bytes) : bytes := p_open ++ lines_code Ls ++ p_close.
+
+(* any static context (spec/SrcText.v: ctx_spec_lines): the children of an element and the body of a template are both parsed by
+   templateNodeParser and written by writeNodes after white-space nodes at the edges were removed (writeElement:
+   stripWhitespace; writeTemplate: stripLeadingAndTrailingWhitespace), so the lines are rendered alike in both. *)
+Definition ctx_code_lines (pre post : bytes) (Ls : list bytes) : bytes := pre ++ lines_code Ls ++ post.
